@@ -43,6 +43,7 @@ type recGen struct {
 	initViaMerge bool // (v2) Init fails through a merged snippet writer; for the model: an Init error
 	log          *[]string
 	own          namer.NameSystems // what the Namers hook returned
+	nsAtInit     string            // the naming systems visible in Init
 }
 
 func tid(t *types.Type) int { n, _ := strconv.Atoi(t.Name.Name); return n }
@@ -68,6 +69,9 @@ func nsKeys(ns namer.NameSystems, own namer.NameSystems) string {
 	sort.Strings(ks)
 	return atoms(ks)
 }
+
+// recScramble: every Finalize hook reverses, in place, the Order of the context it was handed
+var recScramble = false
 
 // recViaWriteString: the hooks emit their text with io.WriteString (which uses the destination's
 // WriteString method when it has one) instead of Write
@@ -115,6 +119,7 @@ func (g *recGen) PackageConsts(c *generator.Context) []string {
 }
 func (g *recGen) Init(c *generator.Context, w io.Writer) error {
 	*g.log = append(*g.log, tag("init", atom(g.name), nsKeys(c.Namers, g.own), ids(c.Order)))
+	g.nsAtInit = nsKeys(c.Namers, g.own)
 	if g.initViaMerge {
 		// the text goes through a snippet writer into which a failed side writer was merged: the
 		// generator returns what the writer reports at the end, as documented
@@ -139,6 +144,13 @@ func (g *recGen) GenerateType(c *generator.Context, t *types.Type, w io.Writer) 
 }
 func (g *recGen) Finalize(c *generator.Context, w io.Writer) error {
 	*g.log = append(*g.log, tag("finalize", atom(g.name)))
+	if recScramble {
+		// the context a hook is handed is its own: what it does to the order it was given is nobody else's
+		// business (the next generators and targets still see the canonical order)
+		for a, b := 0, len(c.Order)-1; a < b; a, b = a+1, b-1 {
+			c.Order[a], c.Order[b] = c.Order[b], c.Order[a]
+		}
+	}
 	recEmit(w, g.finOut)
 	if g.finErr {
 		return fmt.Errorf("HOOK:%s:2", g.name)
@@ -147,6 +159,10 @@ func (g *recGen) Finalize(c *generator.Context, w io.Writer) error {
 }
 func (g *recGen) Imports(c *generator.Context) []string {
 	*g.log = append(*g.log, tag("imports", atom(g.name)))
+	if now := nsKeys(c.Namers, g.own); g.nsAtInit != "" && now != g.nsAtInit {
+		// every hook of a generator sees the same naming systems (its own included), Imports too
+		*g.log = append(*g.log, tag("imports-sees-other-naming-systems", atom(g.name), now))
+	}
 	return g.imports
 }
 func (g *recGen) Filename() string { return g.fileName }
@@ -483,7 +499,13 @@ func c04run(g *Gen, c c04config, entry string, cls []string) {
 func c04(g *Gen) {
 	n := g.N(700, 15000)
 	for i := 0; i < n; i++ {
-		c04run(g, g.c04config(i%4 == 0), "C04.exec", []string{"exec"})
+		recScramble = i%3 == 1
+		cls := []string{"exec"}
+		if recScramble {
+			cls = append(cls, "hooks-reorder-the-order-they-were-handed")
+		}
+		c04run(g, g.c04config(i%4 == 0), "C04.exec", cls)
+		recScramble = false
 	}
 }
 
